@@ -13,7 +13,8 @@ func init() {
 		"(R3) NewSignatureVerifier succeeds exactly for (RSA ∧ (≥2048 bits ∨ opt-in)) ∨ (ECDSA ∧ (P-256 ∨ opt-in)), never for another key type, and stores the key it vetted; "+
 		"(R4) VerifySCTSignature / VerifySTHSignature return the serializer's error or the verdict of tls.VerifySignature over (verifier's key, serialized input of the arguments, the object's own signature) and nothing else; "+
 		"(R5) loglist3.NewFromSignedJSON yields a list only after tls.VerifySignature succeeded over the very bytes that are then parsed, with (SHA256, algorithm of the key's type), and refuses other key types; "+
-		"(R6) ctutil.VerifySCT[WithVerifier] refuse a nil verifier / unusable key and otherwise return the verifier's verdict for the leaf built from their arguments. "+
+		"(R6) ctutil.VerifySCT[WithVerifier] refuse a nil verifier / unusable key and otherwise return the verifier's verdict for the leaf built from their arguments; "+
+		"(R8) every verdict function above tls.VerifySignature (found from the call graph: single error/bool result, hands something it was given to the next verification layer) reports 'valid' only on a path on which a call of the next layer reported 'valid', returns no verdict of another origin (a remembered one, a second source), treats a failed verification as final and verifies operands that derive from its own receiver and parameters; the only way round is an absent verifier (client.LogClient without one, counted). "+
 		"NOT covered: cryptographic validity itself (library verifiers are trusted), that every signed field is in the serialized input (C04), single-bit mutation behaviour, DER corner cases inside asn1.Unmarshal, tls.CreateSignature.",
 		runC05)
 }
@@ -42,6 +43,7 @@ func runC05(r *Run) {
 	c05Wrappers(r)
 	c05LogList(r)
 	c05Ctutil(r)
+	c05Chain(r)
 
 	// signed-field coverage of the SCT / STH signature inputs (rule set of C04.R3)
 	r.Shared("C05.R7", func() {
